@@ -25,7 +25,7 @@ INVARIANTS = ["PackLaws", "MaskIsMod", "Positional", "IntoFrame", "UnpackLaws", 
               "UnbytifyInverse", "HexInverse", "BinInverse", "SignIsTwosComplement", "WideBytify"]
 CONSTS = {
     "quick":    dict(TMax=10, EMax=7, OMax=5, UAll=5, PMax=3, VMax=8, IMax=5, NMax=150, LMax=1, HMax=3, BMax=8, SMax=8),
-    "thorough": dict(TMax=16, EMax=10, OMax=8, UAll=8, PMax=6, VMax=12, IMax=8, NMax=2000, LMax=2, HMax=4, BMax=12, SMax=12),
+    "thorough": dict(TMax=16, EMax=9, OMax=7, UAll=8, PMax=3, VMax=10, IMax=8, NMax=1000, LMax=1, HMax=4, BMax=12, SMax=12),
 }
 NWIDE = {"quick": 150, "thorough": 2500}        # random wide cases per kind
 MAX_REPORTED = 3                                 # divergences reported per function
